@@ -37,7 +37,7 @@ class MainContext:
         budget -= 1
         if budget < 0: raise Blocked()
         ready = [s for s in self.sources if not s.destroyed and not s.in_call]
-        if not ready and on_idle is not None and on_idle():
+        if not ready and on_idle is not None and on_idle(may_block):
             ready = [s for s in self.sources if not s.destroyed and not s.in_call]
         if not ready:
             if may_block: raise Blocked()
